@@ -425,6 +425,20 @@ def run_case(case):
         merge[key] = merge.get(key, 0) + 1
         if b"panicked at" in p["err"] or b"panicked at" in p["out"]:
             merge["hard_fault_panic"] = merge.get("hard_fault_panic", 0) + 1
+        if p["rc"] == 0:
+            # the environment failed and `clean` reports success all the same: it may fail, it may not succeed wrongly —
+            # then DIR must be clean and the number reported must be the number removed
+            st["probes"]["hard_fault_absorbed_then_judged"] = 1
+            left = [rel for rel, val in after.items()
+                    if rel.count(os.sep) == 1 and rel.startswith(dn + os.sep) and eligible_name(rel.split(os.sep)[1])
+                    and (val[0] == "file" or (val[0] == "link" and val[1] == tfile))]
+            if left:
+                return fail("success-but-incomplete", "clean exited 0 after a failed system call and left bytecode files behind: %r" % left)
+            m = re.search(r"Removed (\d+) files\s*$", re.sub(r"\x1b\[[0-9;]*m", "", core.text(p["out"])))
+            # an entry that somebody else removed between listing and unlink (the `gone` action) was not removed by `clean`
+            others = sum(1 for e in p["events"] if e["call"] == "unlink" and e["rule"] == "h" and e["res"] < 0 and e["errno"] == 2)
+            if m and int(m.group(1)) != len(removed) - others:
+                return fail("wrong-count", "clean reported %s removed files, it removed %d itself" % (m.group(1), len(removed) - others))
     return {"ok": True, "stats": st}
 
 
